@@ -69,10 +69,11 @@ def _mk(storage):
 MODES = ['value', 'raise', 'conflict', 'noresolver', 'notimportable', 'garbage', 'attrerror']
 
 
-def h_resolve(old_sel: int, mode_sel: int, storage: str) -> None:
+def h_resolve(old_sel: int, mode_sel: int, storage: str, klass: str = 'PCounter') -> None:
     """store() of a writer that started from revision old_sel while revision 4 is committed."""
     with untraced():
         from ZODB.POSException import ConflictError
+        pobj.COUNTER_CLASS[0] = klass
         env, s, h = _mk(storage)
         revs = h.m.revs(T.oid(1))
         CR._unresolvable.clear()
@@ -122,6 +123,13 @@ def h_resolve(old_sel: int, mode_sel: int, storage: str) -> None:
             check(tid2 == tid and pobj.state_of(data) == want, 'stored revision is not exactly the resolver\'s result',
                   pobj.state_of(data), want)
             check(data[:data.index(b'.') + 1] == new[:new.index(b'.') + 1], 'class metadata of the merged record changed')
+            # ... and it can be loaded by a connection that does not have the object in memory yet
+            try:
+                from ZODB.serialize import ObjectReader
+                ob = ObjectReader(factory=lambda conn, mod, name: getattr(pobj, name)).getGhost(data)
+                check(type(ob).__name__ == klass, 'merged record creates an object of another class', type(ob).__name__)
+            except Exception as ex:
+                fail('the merged record cannot be turned into an object by a fresh reader', type(ex).__name__, str(ex)[:100])
         else:
             check(raised, 'conflict that cannot be resolved (%s) did not raise ConflictError' % mode, k)
             s.tpc_abort(t)
@@ -316,8 +324,8 @@ HARNESSES = [
             symbolic='selector of the revision the writer started from (4 revisions), resolver outcome selector (7 modes incl. a resolver raising AttributeError), followed by a second, resolvable conflict',
             bounds='4 revisions; FileStorage and DemoStorage (base+changes) paths', oracle='recorded resolver arguments + merge arithmetic + battery',
             code=['tryToResolveConflict', 'ConflictResolution.state', 'find_global', 'FileStorage.store', 'DemoStorage.store/tpc_vote'],
-            quick=dict(timeout=100, shards=shards(storage=['file', 'demo'])),
-            thorough=dict(timeout=300, shards=shards(storage=['file', 'demo']))),
+            quick=dict(timeout=100, shards=shards(storage=['file', 'demo'], klass=['PCounter']) + shards(storage=['file'], klass=['PCounterNA'])),
+            thorough=dict(timeout=300, shards=shards(storage=['file', 'demo'], klass=['PCounter', 'PCounterNA']))),
     Harness('undo_merge', _undo_merge,
             decides='undo path: two undos of one resolvable object in one transaction merge against the in-transaction state (see C06 multi_undo)',
             symbolic='two selectors over the transactions', bounds='scenario D (counter changed 4 times)', oracle='model_undo',
